@@ -822,6 +822,11 @@ fn run_with_old(sc: &Scenario, run: &mut Run, w1: &mut HW) -> Result<(), String>
         let idle = clients.iter().filter(|c| !c.holds_stop() && !c.done).count();
         let mut trace = vec![format!("ho-new {inflight} {idle}")];
         let mut observed = vec![format!("ho inflight={inflight} idle={idle}")];
+        if sc.handover {
+            // the listeners were handed back before: the model must give the same drain accounting
+            trace.push("ho-return".into());
+            observed.push("none exited=0".into());
+        }
         let stop_id = w1.send(RequestType::SoftStop(SoftStop {}))?;
         let stop_no: u64 = stop_id.rsplit('-').next().and_then(|x| x.parse().ok()).unwrap_or(0);
         let observe = |w1: &mut HW, wait: Duration| -> String {
